@@ -89,6 +89,7 @@ def _find_method(prog, st, meth):
     return c[0]
 
 
+@common.part
 def get_obligations(chk, prop, focus=None):
     """Features::get from arbitrary queues."""
     ix = SIdx(chk.prog)
@@ -384,6 +385,7 @@ def confirm_get(chk, bad, prop):
             o.detail += ' | in-crate replay of %d queue states follows the specification - counterexample not reproduced' % len(res)
 
 
+@common.part
 def insert_scenarios_obligations(chk, prop):
     """Features::insert_scenarios: nothing lost or duplicated, old entries keep their order, first attempts
     (no retry options or current == 0) get no deadline, retried ones get `now` as start and go to the queue front."""
